@@ -1,20 +1,20 @@
 (* C19: the lemmas that Props/C19.v states, over schedules. *)
 From Coq Require Import List ZArith Bool Arith Lia Permutation.
 From HV Require Import Model.Push Proofs.PushBase Proofs.PushInv Proofs.PushData Proofs.PushOrder
-                       Proofs.PushLive Proofs.PushGuard.
+                       Proofs.PushLive Proofs.PushGuard Proofs.PushFixed.
 Import ListNotations.
 
-Lemma run_InvAll sched s : run init sched = Some s -> InvAll s.
-Proof. intros H. apply InvAll_reach. eapply run_reach; [constructor|exact H]. Qed.
+Lemma run_InvAll b sched s : run (init_of b) sched = Some s -> InvAll s.
+Proof. intros H. apply InvAll_reach. eapply run_reach; [apply (reach_init b)|exact H]. Qed.
 
 (* a message is only ever handed to the client whose subscription installed the cache it
    was accepted into, under that subscription's topic *)
-Lemma only_subscribers : forall sched s, run init sched = Some s ->
+Lemma only_subscribers : forall b sched s, run (init_of b) sched = Some s ->
   forall id e, In (id, e) (delivered s) ->
   exists ca, nth_error (caches s) (e_cache e) = Some ca /\ cown ca = (id, e_topic e) /\
              forall m, In m (e_msgs e) -> In m (cacc ca) /\ In (id, e_topic e, m) (accepted s).
 Proof.
-  intros sched s H id e Hin. destruct (run_InvAll _ _ H) as [_ HD _].
+  intros b sched s H id e Hin. destruct (run_InvAll _ _ _ H) as [_ HD _].
   destruct (t_del s HD _ _ Hin) as (ca & pre & post & Hc & Ho & Ht & _).
   exists ca. repeat split; auto.
   - unfold cacc. rewrite Ht. apply in_or_app. left. apply in_or_app. right. apply in_or_app. left. exact H0.
@@ -23,30 +23,30 @@ Proof.
 Qed.
 
 (* what was delivered from a cache is a subsequence of what was accepted into it *)
-Lemma order_preserved : forall sched s, run init sched = Some s ->
+Lemma order_preserved : forall b sched s, run (init_of b) sched = Some s ->
   forall c ca, nth_error (caches s) c = Some ca -> Subseq (dmsgs c (delivered s)) (cacc ca).
 Proof.
-  intros sched s H c ca Hc. destruct (run_InvAll _ _ H) as [_ _ HO].
+  intros b sched s H c ca Hc. destruct (run_InvAll _ _ _ H) as [_ _ HO].
   destruct (o_hw s HO _ _ Hc) as [_ Hs].
   eapply Subseq_trans; [exact Hs|]. eapply Subseq_trans; [apply Subseq_firstn|].
   unfold cacc. apply Subseq_app_r. apply Subseq_refl.
 Qed.
 
-Lemma no_duplicates : forall sched s, run init sched = Some s ->
+Lemma no_duplicates : forall b sched s, run (init_of b) sched = Some s ->
   forall c ca, nth_error (caches s) c = Some ca ->
   forall m, count_occ Z.eq_dec (dmsgs c (delivered s)) m <= count_occ Z.eq_dec (cacc ca) m.
 Proof. intros. apply Subseq_count. eapply order_preserved; eauto. Qed.
 
-Lemma no_duplicates_nodup : forall sched s, run init sched = Some s ->
+Lemma no_duplicates_nodup : forall b sched s, run (init_of b) sched = Some s ->
   forall c ca, nth_error (caches s) c = Some ca -> NoDup (cacc ca) -> NoDup (dmsgs c (delivered s)).
 Proof. intros. eapply Subseq_NoDup; [eapply order_preserved; eauto|assumption]. Qed.
 
 (* the topics of one poll result are distinct: the list is the Go map *)
-Lemma batch_topics_distinct : forall sched s, run init sched = Some s ->
+Lemma batch_topics_distinct : forall b sched s, run (init_of b) sched = Some s ->
   forall p pl b, nth_error (polls s) p = Some pl -> nth_error (chans s) p = Some (VBatch b) ->
   NoDup (map e_topic b).
 Proof.
-  intros sched s H p pl b Hp Hb. destruct (run_InvAll _ _ H) as [_ HD _].
+  intros b0 sched s H p pl b Hp Hb. destruct (run_InvAll _ _ _ H) as [_ HD _].
   destruct (t_chan s HD _ _ _ Hp Hb) as [_ Hn]. exact Hn.
 Qed.
 
@@ -71,7 +71,7 @@ Lemma exactly_once_partial : forall sched s, run_avoiding hazard init sched = So
   dmsgs c (delivered s) = firstn (length (dmsgs c (delivered s))) (cacc ca) /\
   Permutation (cacc ca) (dmsgs c (delivered s) ++ live s c ++ cmsgs ca).
 Proof.
-  intros sched s H. apply guarded_core. eapply run_avoiding_hazard_greach; [constructor|exact H].
+  intros sched s H. apply guarded_core. eapply run_avoiding_hazard_greach; [apply (greach_init tag_ok false)|exact H].
 Qed.
 
 Lemma exactly_once_no_timeout : forall sched s, run_avoiding is_timeout init sched = Some s ->
@@ -80,7 +80,7 @@ Lemma exactly_once_no_timeout : forall sched s, run_avoiding is_timeout init sch
   Permutation (cacc ca) (dmsgs c (delivered s) ++ live s c ++ cmsgs ca).
 Proof.
   intros sched s H. apply guarded_core. apply greach_no_timeout_ok.
-  eapply run_avoiding_timeout_greach; [constructor|exact H].
+  eapply run_avoiding_timeout_greach; [apply (greach_init (fun _ => tag_no_timeout) false)|exact H].
 Qed.
 
 (* nothing in flight: accepted = delivered ++ still cached, as sequences *)
@@ -89,7 +89,7 @@ Lemma exactly_once_quiescent : forall sched s, run_avoiding hazard init sched = 
   cacc ca = dmsgs c (delivered s) ++ cmsgs ca.
 Proof.
   intros sched s H c ca Hc Hl.
-  assert (Hg : greach tag_ok s) by (eapply run_avoiding_hazard_greach; [constructor|exact H]).
+  assert (Hg : greach tag_ok s) by (eapply run_avoiding_hazard_greach; [apply (greach_init tag_ok false)|exact H]).
   destruct (InvFull_greach s Hg) as [[HJ HD HO] H5 HG].
   pose proof (g_eq s HG _ _ Hc) as E. pose proof (g_perm s HG _ _ Hc) as P.
   rewrite Hl, app_nil_r in P. unfold cacc. f_equal.
@@ -149,3 +149,65 @@ Qed.
 Lemma witness_hazard : run_avoiding hazard init witness = None /\
   run_avoiding hazard init (firstn 17 witness) <> None /\ run_avoiding hazard init (firstn 18 witness) = None.
 Proof. vm_compute. split; [reflexivity|split; [discriminate|reflexivity]]. Qed.
+
+(* ---- the repaired variant: the full-strength statement, for every schedule *)
+
+Lemma fixed_exactly_once_in_order : forall sched s, run init_fixed sched = Some s ->
+  forall c ca, nth_error (caches s) c = Some ca ->
+  dmsgs c (delivered s) = firstn (length (dmsgs c (delivered s))) (cacc ca) /\
+  Permutation (cacc ca) (dmsgs c (delivered s) ++ live s c ++ cmsgs ca).
+Proof.
+  intros sched s H. apply guarded_core. apply reachf_ok. eapply run_reachf; [constructor|exact H].
+Qed.
+
+Lemma fixed_quiescent : forall sched s, run init_fixed sched = Some s ->
+  forall c ca, nth_error (caches s) c = Some ca -> live s c = [] ->
+  cacc ca = dmsgs c (delivered s) ++ cmsgs ca.
+Proof.
+  intros sched s H c ca Hc Hl.
+  assert (Hg : greach tag_ok s) by (apply reachf_ok; eapply run_reachf; [constructor|exact H]).
+  destruct (InvFull_greach s Hg) as [[HJ HD HO] H5 HG].
+  pose proof (g_eq s HG _ _ Hc) as E. pose proof (g_perm s HG _ _ Hc) as P.
+  rewrite Hl, app_nil_r in P. unfold cacc. f_equal.
+  symmetry. rewrite E. apply firstn_all2. rewrite (Permutation_length P), E, firstn_length. lia.
+Qed.
+
+(* no run of the repaired variant contains a hazardous step *)
+Lemma fixed_never_hazardous : forall sched s, run init_fixed sched = Some s ->
+  run_avoiding hazard init_fixed sched = Some s.
+Proof.
+  assert (G : forall sched s0 s, reachf s0 -> run s0 sched = Some s -> run_avoiding hazard s0 sched = Some s).
+  { induction sched as [|e r IH]; cbn; intros s0 s Hr H; [exact H|].
+    destruct (step s0 e) as [s1|] eqn:E; [|discriminate].
+    assert (Hh : hazard s0 e = false).
+    { destruct (reachf_ok s0 Hr) as [Hg [Hf Hra]].
+      destruct (InvFull_greach s0 Hg) as [[HJ _ _] _ HG].
+      destruct e as [o|p k|w k]; cbn [hazard]; [reflexivity| |].
+      - destruct k as [|k]; [reflexivity|].
+        destruct (nth_error (polls s0) p) as [pl|]; [|reflexivity].
+        destruct (ppc pl); try reflexivity. rewrite Hf. reflexivity.
+      - destruct (nth_error (works s0) w) as [wk|]; [|reflexivity].
+        destruct (wsub wk); [reflexivity|].
+        assert (Hp : forall id, match resp s0 id with Some r => negb (active_at s0 r) | None => false end = false).
+        { intros id. destruct (resp s0 id) as [rr|] eqn:Er; [|reflexivity]. rewrite (Hra _ _ Er). reflexivity. }
+        destruct (wf wk) as [tp m todo res pc|id tp pc|id todo res pc|id sg pc]; try reflexivity.
+        + destruct pc; try reflexivity. apply Hp.
+        + destruct pc; try reflexivity. apply Hp. }
+    rewrite Hh. apply IH; [|exact H]. apply step_step_rel in E. destruct E as (t & E & _).
+    eapply reachf_step; eauto. }
+  intros sched s H. apply G; [constructor|exact H].
+Qed.
+
+(* the history of the finding, on the repaired variant: the message arrives *)
+Definition witness_fixed : list event :=
+  [ESpawn (OSub 1 7)] ++ rep 3 (EWork 0 0) ++
+  [ESpawn (OPoll 1)] ++ rep 8 (EPoll 0 0) ++ [EPoll 0 1; EPoll 0 0] ++
+  [ESpawn (OUni 7 42%Z 1)] ++ rep 3 (EWork 2 0) ++
+  [ESpawn (OPoll 1)] ++ rep 8 (EPoll 1 0).
+
+Lemma witness_fixed_delivers :
+  exists s ca, run init_fixed witness_fixed = Some s /\
+    nth_error (caches s) 0 = Some ca /\ cacc ca = [42%Z] /\ pub_result s 2 = Some [(1, true)] /\
+    poll_result s 0 = Some RTimeout /\ poll_result s 1 = Some (RBatch [(7, 0, 0, [42%Z])]) /\
+    dmsgs 0 (delivered s) = [42%Z].
+Proof. eexists. eexists. vm_compute. repeat split; reflexivity. Qed.
